@@ -17,7 +17,11 @@ for pid in sorted(props.PROPS):
         "replay_cmd_template": "./check %s --replay {path}" % pid,
         "engine": P.get("engine", "verus"),
         "level_claimed": {"category": P["level"], "text": P["level_text"], "design_ref": "DESIGN.md section " + P["design_ref"]},
-        "level_note": P["level_note"],
+        "level_note": P["level_note"] + (
+            "; the THOROUGH tier additionally runs a BOUNDED differential exploration of the real code (unit search:%s, "
+            "lib/search_backend.py: directed-search families against the independent oracles) - labelled bounded, "
+            "never counted in the obligation totals; it covers what the contracts assume rather than prove" % pid
+            if any(u[0] == "search" for u in P["units"].get("thorough", [])) else ""),
         "technique": P["technique"],
     })
 na = [{"property_id": k, "reason": v} for k, v in sorted(props.NOT_APPLICABLE.items()) if k not in props.PROPS]
@@ -38,6 +42,10 @@ m = {
          "kind_free_text": "CBMC 6.11 function contracts (goto-instrument --dfcc) on #include of the real c/*.c"},
         {"name": "kani", "path": "/verif/lib/kani_backend.py", "serves_properties": sorted(p for p in props.PROPS if any(u[0] == "kani" for t in props.PROPS[p]["units"].values() for u in t)),
          "kind_free_text": "Kani 0.68 harnesses appended to a scratch copy of /repo: complete loop-free proofs and counterexamples; bounded stand-ins labelled bounded"},
+        {"name": "guard", "path": "/verif/lib/guard_backend.py", "serves_properties": sorted(p for p in props.PROPS if any(u[0] == "guard" for t in props.PROPS[p]["units"].values() for u in t)),
+         "kind_free_text": "exhaustive source scans that pin what the contracts assume (kernel source fingerprints, no shared mutable statics, single publication of the C feature cache, pointer-cast discipline); DESIGN.md 12.7"},
+        {"name": "search", "path": "/verif/lib/search_backend.py", "serves_properties": sorted(p for p in props.PROPS if any(u[0] == "search" for t in props.PROPS[p]["units"].values() for u in t)),
+         "kind_free_text": "BOUNDED differential exploration of the real crate / C library / b3sum against independent oracles (thorough tier only; never counted as proved); the same families make failed obligations replayable"},
     ],
     "checks": checks,
     "not_applicable": na,
